@@ -26,3 +26,44 @@ CHECKS = {
                 technique="runtime differential of real propagator output vs enumerated bounds hull"),
 }
 NOT_APPLICABLE = {p: _PENDING for p in ["C%02d" % i for i in range(1, 21)] if p not in CHECKS}
+
+CHECKS.update({
+    "C01": dict(level="exploration", ref="DESIGN.md section 6 C01",
+                text="Every vector yielded or returned by the real solvers on thousands of random in-contract models x configurations (both modes, constraint types also posted alone, the multiprocessing solver through real forked workers) is checked in full against the declared domains, the alias offsets and the ground semantics of every posted constraint.",
+                note="trusts O-sem and the parameter contract; models small (<= 6000/20000 points) so that the same runs also feed C02/C03",
+                technique="runtime checker at the solver API boundary evaluating every returned solution against independent ground semantics"),
+    "C02": dict(level="exploration", ref="DESIGN.md section 6 C02",
+                text="The multiset of solutions yielded by exhaustive enumeration on the real solver is compared with an independent brute-force enumeration for random models x random configurations x constraint permutations in both modes; termination is decided by logical step budgets on plane A.",
+                note="trusts O-brute/O-sem; models limited to <= 6000/20000 points",
+                technique="differential runtime oracle: real enumeration vs brute-force enumeration of the domain product"),
+    "C03": dict(level="exploration", ref="DESIGN.md section 6 C03",
+                text="minimize/maximize results on random models (objective with/without constraints, with/without offset, both directions) are compared with the brute-force optimum; a history monitor inside the interpreted engine checks the improve/reset/tighten protocol; the multiprocessing reducer is run against all interleavings of real worker streams (shim) and real processes.",
+                note="trusts O-brute; restart budget = objective width + 3",
+                technique="differential oracle on results + online history monitor on hooked restart/tighten events"),
+    "C04": dict(level="exploration", ref="DESIGN.md section 6 C04",
+                text="Termination restated as bounded progress: monitors inside the interpreted engine count constraint executions per pass, executed lines per propagator call (sys.monitoring), choices, backtracks, probes and restarts against combinatorial bounds and raise out of the engine when exceeded; compiled runs are watched by a parent-side stall watchdog whose firing is replayed under the budgets rather than taken as a verdict.",
+                note="no finite run decides an unbounded 'eventually'; budgets carry a x4 safety factor; exploration over random models",
+                technique="runtime step-budget monitors (logical, not wall-clock) inside the real engine"),
+    "C07": dict(level="exploration", ref="DESIGN.md section 6 C07",
+                text="Every entailment answer observed (exhaustive small scope + random boxes, 12 types) is validated by enumerating the returned box; in real searches a flag monitor checks copy-on-push, exact restore on pop and that flags are cleared only by an entailment answer of that constraint; a differential run with entailment downgraded must give the same solutions.",
+                note="trusts O-sem; boxes > 20000 points are skipped and counted as such",
+                technique="runtime oracle on entailment answers + stack-row invariant monitor + metamorphic downgrade run"),
+    "C08": dict(level="exploration", ref="DESIGN.md section 6 C08",
+                text="Around every propagation pass of real searches (interpreted): shrink/non-empty invariants, re-execution of every enabled constraint through the real propagator, comparison with an independent greatest-fixpoint computation for exact-BC models, under the real and 3-5 injected adversarial wake-up orders; plus a direct trigger-sufficiency test per constraint type.",
+                note="schedule space sampled; O-fix only for small domains; order independence asserted only for exact-BC models",
+                technique="invariant-at-hook monitor on every pass + schedule injection at the queue pop + reference fixpoint"),
+    "C09": dict(level="exploration", ref="DESIGN.md section 6 C09",
+                text="All five value heuristics are called directly on hand-built stacks for every [a,b] with a in [-5,5], width 1..8 at random levels (both modes) and their partition / untouched-state / announced-events postcondition checked, then backtrack() is driven and every restore compared bit for bit; the same assertions run around every decision and backtrack of real interpreted searches.",
+                note="unit scope exhaustive for the listed shapes; in-search part sampled",
+                technique="pre/post-condition monitors on heuristic calls and backtracks (unit harness + in-search hooks)"),
+    "C10": dict(level="exploration", ref="DESIGN.md section 6 C10",
+                text="Around every call of the shaving algorithm in real searches: stack height, shrink, containment in what the real plain BC returns from the same entry state, no brute-force solution removed; every successful probe re-derived independently, every failed probe undone exactly; solver-level results equal brute force.",
+                note="reference BC is the real BC run on private copies; solutions from O-brute",
+                technique="invariant-at-hook monitor with reference-model comparison (real BC / brute force)"),
+    "C17": dict(level="exploration", ref="DESIGN.md section 6 C17",
+                text="Each of the 13 counters is compared with the monitor's own count of its defining event at every delivered solution and at the end of enumeration and optimisation runs (interpreted); conservation laws are checked in both modes; multiprocessing totals against per-worker sums under all interleavings.",
+                note="exactness in compiled mode is inherited through C15 (identical statistics in both modes)",
+                technique="shadow counters on hooked events compared with reported statistics + conservation laws"),
+})
+for _k in list(CHECKS):
+    NOT_APPLICABLE.pop(_k, None)
